@@ -2,11 +2,14 @@
    Statements only; proofs in MultiProofs.v (the union is the multi-map fold with "take the new
    value": at a pixel where exactly one input is valid the result is that input's value, where none
    is valid it is the sentinel) and PartialProofs.v (each input is read coverage pixel by coverage
-   pixel; a partial read is the restriction).  The interpreter's op 32 computes this specification;
+   pixel; a partial read is the restriction) and CatRefine.v (the routine's own data flow in in-memory
+   mode — one output map, for every output coverage pixel and every input a 'replace' update of the
+   input's valid pixels inside it — gives, for any inputs, the value of the last input valid at each
+   pixel and the sentinel elsewhere, and a well-formed map).  The interpreter's op 32 computes both;
    the implementation's output file is compared with it on every run, for inputs of differing
    coverage resolution and every requested output coverage resolution. *)
 From Coq Require Import QArith.
-From HS Require Import Prelude Cov Map Spec Ops Spec2 MultiProofs Exec Exec2.
+From HS Require Import Prelude Cov Map Spec Ops Spec2 Params MapProofs MultiProofs CatRefine Exec Exec2.
 Open Scope Z_scope.
 
 Section C18.
@@ -47,6 +50,36 @@ Qed.
 
 End C18.
 
+(* the routine itself (layout level), for every list of well-formed inputs of one sky resolution — any
+   coverage resolutions, any block orders, any visiting list that contains the needed coverage pixels *)
+Theorem C18_concatenation_routine_is_well_formed_and_pointwise :
+  forall (P : params) (N ncv nf : Z) (sentinel : p_V P) (inputs : list (smap (p_V P))) (cov_pix : list Z),
+    0 <= ncv -> 0 < nf -> N = ncv * nf -> p_valid P sentinel = false ->
+    (forall m, In m inputs -> okin P N m) -> NoDup cov_pix ->
+    (forall q, 0 <= q < N -> cvals P inputs q <> [] -> In (q / nf) cov_pix) ->
+    let out := cat_mem (p_V P) (p_valid P) (p_dv P) (p_vadd P) (p_vor P) (p_vand P) (p_vzero P) (p_is_sent P)
+                       (p_sent_nonzero P) ncv nf sentinel inputs cov_pix in
+    MapProofs.wf P out /\ npix (p_V P) out = N /\ blank out = sentinel /\
+    forall q, 0 <= q < N ->
+      read (p_V P) (p_dv P) out q =
+      match cvals P inputs q with [] => sentinel | _ => fold_left (fun _ b => b) (cvals P inputs q) sentinel end.
+Proof. exact cat_mem_spec. Qed.
+
+(* pairwise disjoint valid sets: the value of the one input valid there, the sentinel elsewhere *)
+Theorem C18_concatenation_of_disjoint_inputs :
+  forall (P : params) (N ncv nf : Z) (sentinel : p_V P) (inputs : list (smap (p_V P))) (cov_pix : list Z) q v,
+    0 <= ncv -> 0 < nf -> N = ncv * nf -> p_valid P sentinel = false ->
+    (forall m, In m inputs -> okin P N m) -> NoDup cov_pix ->
+    (forall q, 0 <= q < N -> cvals P inputs q <> [] -> In (q / nf) cov_pix) ->
+    0 <= q < N ->
+    let out := cat_mem (p_V P) (p_valid P) (p_dv P) (p_vadd P) (p_vor P) (p_vand P) (p_vzero P) (p_is_sent P)
+                       (p_sent_nonzero P) ncv nf sentinel inputs cov_pix in
+    (cvals P inputs q = [v] -> read (p_V P) (p_dv P) out q = v) /\
+    (cvals P inputs q = [] -> read (p_V P) (p_dv P) out q = sentinel).
+Proof. exact cat_mem_disjoint. Qed.
+
 Print Assumptions C18_union_takes_the_only_valid_input.
 Print Assumptions C18_union_invalid_elsewhere.
+Print Assumptions C18_concatenation_routine_is_well_formed_and_pointwise.
+Print Assumptions C18_concatenation_of_disjoint_inputs.
 Print Assumptions C18_overlap_iff_shared_valid_pixel.
